@@ -14,6 +14,7 @@
 //      iwith d 0 p | succeed s | fail s | pc o d | pw o d p | px | pr idx | save | load bytes|-1(=last saved) |
 //      rt d | re d | attach 0/1 | obs
 // acts: T<d> W<d>.<p> X S S<s> F F<s> PC<o>.<d> PW<o>.<d>.<p> PX PR<idx>
+#include <sys/time.h>
 #include "ffsm2_harness.hpp"
 
 #include <fstream>
@@ -268,8 +269,14 @@ int main(int argc, char** argv) {
 	g_rec.buf.reserve(1u << 21);
 	std::set_terminate([] { onSignal(6); });
 	for (int sig : { SIGSEGV, SIGBUS, SIGFPE, SIGILL, SIGABRT, SIGALRM }) std::signal(sig, onSignal);
+	// a call that never returns is detected by the processor time the run consumes, not by the wall clock: on a loaded machine a run
+	// is slow, not hung (the wall clock is only a distant backstop)
 	const char* lim = std::getenv("VH_ALARM");
-	::alarm(lim ? static_cast<unsigned>(std::atoi(lim)) : 120u);
+	const unsigned cpuSeconds = lim ? static_cast<unsigned>(std::atoi(lim)) : 120u;
+	std::signal(SIGPROF, [](int) { onSignal(SIGALRM); });
+	struct itimerval tv; std::memset(&tv, 0, sizeof tv); tv.it_value.tv_sec = static_cast<time_t>(cpuSeconds);
+	::setitimer(ITIMER_PROF, &tv, nullptr);
+	::alarm(cpuSeconds * 30u);
 
 	bool started = false;
 	std::string line;
